@@ -53,6 +53,7 @@ type cutRun struct {
 func runCut(b []byte, pre iosim.Schedule, cut *Cut, nameArgs bool, cov *Cov) cutRun {
 	clk := &core.Clock{}
 	sr := iosim.NewSimReader(b[:cut.K], cutSchedule(pre, cut), clk)
+	sr.FailErr = iosim.FailErrFor(cut.Err)
 	w := iosim.NewSimWriter(clk)
 	res := ScanOnce(sr, w, (&Case{NameArgs: nameArgs}).Opts())
 	res.OffAfter = sr.Offset()
@@ -288,6 +289,16 @@ func checkCut(c *Case, s *gen.Stream, ref cutRun, cov *Cov) []*Violation {
 	return vs
 }
 
+// errKind picks the error value of a failing cut: the plain injected error at
+// most offsets, one that wraps io.EOF and io.ErrUnexpectedEOF at the others
+// (the identity of the reader's error must survive whatever it is or wraps).
+func errKind(kind string, k int) string {
+	if kind != "fail" {
+		return ""
+	}
+	return []string{"", "wraps-eof", "", "unexpected-eof", "wraps-eof"}[k%5]
+}
+
 func surplus(got, ref []byte) []byte {
 	d := FirstDiff(got, ref)
 	if d < 0 {
@@ -323,6 +334,7 @@ func checkC10Loop(c *Case, cov *Cov) []*Violation {
 	}
 	clk := &core.Clock{}
 	sr := iosim.NewSimReader(b[:c.Cut.K], cutSchedule(c.Sched, c.Cut), clk)
+	sr.FailErr = iosim.FailErrFor(c.Cut.Err)
 	w := iosim.NewSimWriter(clk)
 	lr := ScanLoop(sr, w, c.Opts(), bytes.Count(b[:c.Cut.K], []byte("\n"))+3, nil)
 	if cov != nil {
@@ -431,7 +443,7 @@ func RunC10(r *core.Rng, run uint64, seed uint64, tier string, cov *Cov) []*Viol
 					if di == 1 && k%2 == 1 && len(b) > 1500 {
 						continue // chunked variant on every other offset for larger streams
 					}
-					c := &Case{Prop: "C10", Run: run, Seed: seed, Mode: "cut", Doc: doc, Sched: pre, Cut: &Cut{K: k, Kind: kind, With: with}, NameArgs: nameArgs}
+					c := &Case{Prop: "C10", Run: run, Seed: seed, Mode: "cut", Doc: doc, Sched: pre, Cut: &Cut{K: k, Kind: kind, With: with, Err: errKind(kind, k)}, NameArgs: nameArgs}
 					cov.Evaluations++
 					if hasDump {
 						cov.Distinct[core.Hash([]byte(ih), []byte(fmt.Sprint(k, kind, with, di)))]++
@@ -448,7 +460,7 @@ func RunC10(r *core.Rng, run uint64, seed uint64, tier string, cov *Cov) []*Viol
 		}
 		// the resume loop at sampled offsets
 		if k%7 == int(run%7) {
-			c := &Case{Prop: "C10", Run: run, Seed: seed, Mode: "cutloop", Doc: doc, Sched: chunked, Cut: &Cut{K: k, Kind: []string{"close", "fail"}[k%2], With: k%3 == 0}, NameArgs: nameArgs}
+			c := &Case{Prop: "C10", Run: run, Seed: seed, Mode: "cutloop", Doc: doc, Sched: chunked, Cut: &Cut{K: k, Kind: []string{"close", "fail"}[k%2], With: k%3 == 0, Err: errKind([]string{"close", "fail"}[k%2], k/2)}, NameArgs: nameArgs}
 			cov.Evaluations++
 			for _, v := range checkC10Loop(c, cov) {
 				if !seen[v.Clause] {
